@@ -451,3 +451,5 @@ def run(ctx):
     r5_register_frames(ctx)
     r6_error_unwinding(ctx)
     r7_transfer_committed_last(ctx)
+    from . import labels
+    labels.r_label_tables(ctx, "C05.R8")
